@@ -247,3 +247,20 @@ def outervar_witness_program(fn_names, global_names):
     return ("(setv %s)\n(defn outer []\n  (setv %s)\n  (defn inner []\n    (nonlocal %s)\n    (setv %s 5))\n  (inner)\n  %s)"
             % (" ".join("%s 0" % g for g in global_names), " ".join("%s 1" % n for n in fn_names),
                " ".join(list(fn_names) + list(global_names)), fn_names[0], fn_names[0]))
+
+
+def coqchk(chk, module):
+    """thorough tier: re-check the compiled property file and everything it depends on with the
+    independent checker; records an obligation"""
+    if chk.tier != "thorough":
+        return
+    with vlib.BuildLock():
+        p = subprocess.run(["timeout", "1200", "coqchk", "-silent", "-o", "-Q", ".", "HyV", module],
+                           cwd=vlib.COQ, capture_output=True, text=True)
+    out = p.stdout + p.stderr
+    ok = p.returncode == 0 and "Axioms: <none>" in out.replace("\n", " ").replace("  ", " ")
+    if not ok and p.returncode == 0:
+        import re
+        ok = re.search(r"Axioms:\s*<none>", out) is not None
+    chk.obligation("coqchk -o %s (axioms: none, no unsafe fixpoints / positivity / type-in-type)" % module, ok, out[-1500:])
+    chk.extra["coqchk"] = out[-600:]
